@@ -311,6 +311,14 @@ def seq_sum(ex, st, s, lo, hi):
         ek = to_real(s.get(k))
         st.pc.append(ps(z3.IntVal(0)) == 0)
         st.pc.append(z3.ForAll([k], z3.Implies(k >= 0, ps(k + 1) == ps(k) + ek), patterns=[ps(k + 1)]))
+        # extensionality with the sum functions a contract declares (theorem by induction on m, stated once as an axiom):
+        # if the summands agree below m, the prefix sums agree at m
+        c = ex.fn_stack[0][1] if ex.fn_stack else None
+        for (P, term) in (c.options.get("sum_specs", []) if c is not None else []):
+            a, m, j = z3.Int(uid("a")), z3.Int(uid("m")), z3.Int(uid("j"))
+            used(ex, "extensionality of finite sums (induction on the upper bound): pointwise equal summands give equal prefix sums")
+            agree = z3.ForAll([j], z3.Implies(z3.And(j >= 0, j < m), to_real(s.get(j)) == term(a, j)))
+            st.pc.append(z3.ForAll([a, m], z3.Implies(z3.And(m >= 0, agree), ps(m) == P(a, m)), patterns=[z3.MultiPattern(ps(m), P(a, m))]))
     return ps(to_z3(hi)) - ps(to_z3(lo))
 
 
@@ -551,6 +559,18 @@ def m_sqrt(ex, st, args, kwargs, node):
 def m_log(ex, st, args, kwargs, node):
     (v,) = args
     if isinstance(v, PyList):
+        if not v.is_conc() and not ex.quiet:
+            ii = z3.Int(uid("li"))
+            pc0 = len(st.pc)
+            st.pc.append(z3.And(ii >= 0, ii < to_z3(v.length())))
+            ex.quiet += 1
+            try:
+                e = v.get(ii)
+            finally:
+                ex.quiet -= 1
+            ex.safety(st, "log-domain", to_real(e) > 0, node)
+            del st.pc[pc0:]
+            return np_map(ex, v, _lazy(ex, lambda x: m_log(ex, st, [x], {}, node)))
         return np_map(ex, v, lambda x: m_log(ex, st, [x], {}, node))
     used(ex, "math.log / numpy.log: uninterpreted LOG with LOG(1)=0 (domain x>0 is a safety obligation)")
     if is_conc_num(v) and v == 1:
